@@ -127,6 +127,8 @@ type Exec struct {
 	epochComps map[int]map[string]string
 	epochParents map[int][]epochParent // a join of different havoc histories: which epoch each joined path was in
 	noStoreHit map[string]bool
+	confineHit map[string]bool
+	stablePrev map[int]int // epoch -> the epoch it replaced (fields of stable structs carry over)
 	clauseUsed map[string]int
 	ghostOn  bool
 }
@@ -139,7 +141,7 @@ type Hook interface {
 }
 
 func NewExec(p *Prog, opt *Options) *Exec {
-	e := &Exec{P: p, Opt: opt, strs: map[string]*Term{}, floats: map[string]*Term{}, declared: map[string]bool{}, anchorN: map[string]int{}, seenName: map[string]int{}, ghostFuncs: map[string]func(en *evalEnv, args []ev) ev{}, usedLoopKeys: map[string]bool{}, noStoreHit: map[string]bool{}, clauseUsed: map[string]int{}}
+	e := &Exec{P: p, Opt: opt, strs: map[string]*Term{}, floats: map[string]*Term{}, declared: map[string]bool{}, anchorN: map[string]int{}, seenName: map[string]int{}, ghostFuncs: map[string]func(en *evalEnv, args []ev) ev{}, usedLoopKeys: map[string]bool{}, noStoreHit: map[string]bool{}, confineHit: map[string]bool{}, clauseUsed: map[string]int{}}
 	e.registerDigitGhosts()
 	return e
 }
@@ -264,6 +266,10 @@ func (e *Exec) heapGet(st *State, comp, sort string) *Term {
 // epochDefault: the value a component has in a havoc epoch before anything wrote it. An epoch created by
 // joining paths with different havoc histories takes, on each path, the value of that path's epoch.
 func (e *Exec) epochDefault(comp string, epoch int, sort string) *Term {
+	if prev, ok := e.stablePrev[epoch]; ok && e.isStableComp(comp) {
+		// a field of a stable struct that was not in use when the epoch began keeps the value it had before
+		return e.epochDefault(comp, prev, sort)
+	}
 	n := fmt.Sprintf("%s!e%d", comp, epoch)
 	if !e.declared[n] {
 		e.declared[n] = true
@@ -293,6 +299,19 @@ type epochParent struct {
 }
 
 var sentinel = &Term{S: "", Sort: ""}
+
+// isStableComp: the component is a field of a struct declared stable in the contract corpus.
+func (e *Exec) isStableComp(comp string) bool {
+	if e.Opt.Contracts == nil {
+		return false
+	}
+	for _, ss := range e.Opt.Contracts.StableStructs {
+		if strings.HasPrefix(comp, "F_"+sanitize(ss)+"_") {
+			return true
+		}
+	}
+	return false
+}
 
 // newEpoch forgets every heap component except local (L*) leaves.
 func (e *Exec) newEpoch(st *State) {
@@ -324,6 +343,10 @@ func (e *Exec) newEpoch(st *State) {
 	for k, t := range keep {
 		st.heap[k] = t
 	}
+	if e.stablePrev == nil {
+		e.stablePrev = map[int]int{}
+	}
+	e.stablePrev[e.epochN] = st.epoch
 	st.epoch = e.epochN
 	na := e.fresh(SInt, "alloc")
 	e.emit("(assert (<= %s %s))", old.S, na.S)
@@ -334,6 +357,18 @@ func (e *Exec) newEpoch(st *State) {
 func (e *Exec) havoc(st *State, m *ModSet) {
 	if m.All {
 		e.newEpoch(st)
+		// fields of stable structs are kept by newEpoch (unreachable from Lisp code and dynamic calls), but not
+		// those that the callee, or a function it calls statically, stores to itself
+		var cs []string
+		for c := range m.Comps {
+			if _, kept := st.heap[c]; kept && strings.HasPrefix(c, "F_") {
+				cs = append(cs, c)
+			}
+		}
+		sort.Strings(cs)
+		for _, c := range cs {
+			st.heap[c] = sentinel
+		}
 		return
 	}
 	for c := range m.Comps {
